@@ -101,6 +101,36 @@ def feedAllFrom (f : Framer M) : Out M → List Bytes → Out M
 
 def feedAll (f : Framer M) (chunks : List Bytes) : Out M := feedAllFrom f ⟨[], [], none⟩ chunks
 
+/-! ### Sends between reads, and several connections at once
+
+In the code a connection object owns its receive buffer; `send(...)` (any transport),
+`HttpConnection.send_and_receive` and the other live connection objects do not touch it.
+The model says so explicitly: a `send` operation leaves the receive state alone, and a
+schedule that interleaves the reads of several connections updates only the connection
+that reads.  (`FramingLemmas.runOps_eq`, `runSched_eq`; the harness interleaves real sends
+and real connection objects to check that the code has no hidden shared/cleared state.) -/
+
+inductive Op where
+  | recv (chunk : Bytes)      -- `data_received(chunk)`
+  | send (data : Bytes)       -- the application sends something on the same connection
+
+def Op.recvs : List Op → List Bytes
+  | [] => []
+  | .recv c :: r => c :: Op.recvs r
+  | .send _ :: r => Op.recvs r
+
+def stepOp (f : Framer M) (o : Out M) : Op → Out M
+  | .recv c => feedAllFrom f o [c]
+  | .send _ => o
+
+def runOps (f : Framer M) (o : Out M) (ops : List Op) : Out M := ops.foldl (stepOp f) o
+
+/-- reads of connections `0,1,2,…` (all of the same type) in the order the event loop
+    happens to deliver them -/
+def runSched (f : Framer M) (st : Nat → Out M) : List (Nat × Bytes) → (Nat → Out M)
+  | [] => st
+  | (i, c) :: rest => runSched f (fun j => if j = i then feedAllFrom f (st i) [c] else st j) rest
+
 /-- Per-read trace (what was delivered by each `data_received`, buffer after it); used by
     the drivers.  `feedTrace_last` ties it to `feedAll`. -/
 def feedTrace (f : Framer M) : Bytes → List Bytes → List (Out M)
